@@ -53,6 +53,23 @@ pub fn parse_path(c: &mut Cur) -> Path {
                 ops.push(PathOp::CubicTo(a, b, d))
             }
             "Z" => ops.push(PathOp::Close),
+            "A" => {
+                // PathBuilder::arc(x, y, r, start, sweep) issued at this point of the path: everything so far is replayed
+                // through a PathBuilder (finish() returns the ops of the calls in call order: C20), then the arc is added
+                let (x, y, r, a0, sw) = (c.f(), c.f(), c.f(), c.f(), c.f());
+                let mut pb = PathBuilder::new();
+                for op in &ops {
+                    match *op {
+                        PathOp::MoveTo(p) => pb.move_to(p.x, p.y),
+                        PathOp::LineTo(p) => pb.line_to(p.x, p.y),
+                        PathOp::QuadTo(a, b) => pb.quad_to(a.x, a.y, b.x, b.y),
+                        PathOp::CubicTo(a, b, d) => pb.cubic_to(a.x, a.y, b.x, b.y, d.x, d.y),
+                        PathOp::Close => pb.close(),
+                    }
+                }
+                pb.arc(x, y, r, a0, sw);
+                ops = pb.finish().ops;
+            }
             t => panic!("bad path op {}", t),
         }
     }
